@@ -1842,5 +1842,6 @@ func init() {
 	Registry["C08"] = func(c *Ctx) {
 		c.R.NotDecided = append(c.R.NotDecided, "a measured heap bound; loop termination; the count of zero-length fragments (the cap bounds retained payload bytes)")
 		decoderRules(c, "C08")
+		noPanicFor(c, "C08")
 	}
 }
